@@ -51,6 +51,7 @@ type node struct {
 type cluster struct {
 	nodes   []*node
 	forward bool
+	maxmem  uint64 // config.MaxMemory of every node (policy noeviction); 0: no limit
 	leader  int
 	snap    []byte
 	out     *bufio.Writer
@@ -87,6 +88,10 @@ func (c *cluster) newServer(i int, clk *sugardb.VerifClock) *node {
 	}
 	conf.ServerID = fmt.Sprintf("node-%d", i)
 	conf.ForwardCommand = c.forward
+	if c.maxmem != 0 {
+		conf.MaxMemory = c.maxmem
+		conf.EvictionPolicy = "noeviction"
+	}
 	db, err := sugardb.NewSugarDB(sugardb.WithConfig(conf), sugardb.WithVerifClock(clk))
 	if err != nil {
 		panic(err)
@@ -134,6 +139,8 @@ func newCluster(args []string, out *bufio.Writer) *cluster {
 			c.leader, _ = strconv.Atoi(p[1])
 		case "forward":
 			c.forward = p[1] == "1"
+		case "maxmem":
+			c.maxmem, _ = strconv.ParseUint(p[1], 10, 64)
 		}
 	}
 	c.nodes = make([]*node, n)
